@@ -1,7 +1,7 @@
 (* C13: define-then-delete is the identity; feature dependencies stay consistent
    (statements only; proofs in DepsProofs.v / DepsTables.v). *)
 From Coq Require Import ZArith List Bool Arith Lia.
-From CV Require Import C13.DepsModel C13.InvModel C13.DepsProofs C13.DepsTables C13.ModuleModel C13.ModuleProofs C13.DepsInv C13.ModuleInv Gen.GenDeps.
+From CV Require Import C13.DepsModel C13.InvModel C13.DepsProofs C13.DepsTables C13.ModuleModel C13.ModuleProofs C13.DepsInv C13.ModuleInv C13.ModuleRooted C13.EnableExcl C13.EnableWitness Gen.GenDeps.
 Import ListNotations.
 
 (* ---- table theorems, re-checked on every run against the tables dumped from the binary ---- *)
@@ -393,4 +393,84 @@ Example C13_example_disable_partial : exists m m',
 Proof.
   do 2 eexists. split; [vm_compute; reflexivity|]. split; [vm_compute; reflexivity|]. split; [vm_compute; reflexivity|].
   split; [vm_compute; reflexivity|]. split; [vm_compute; reflexivity|]. split; vm_compute; reflexivity.
+Qed.
+
+(* ==== round 2 ==== *)
+
+(* ---- "mutually exclusive capabilities are never enabled together", ENABLE side ----
+   For any tables that pass the boolean check (requires graph acyclic, exclusions symmetric, no feature excludes itself
+   or one of its transitive requirements), any state whose object graph has a height, any object, feature and flag
+   combination, successful or failed call with everything it enables on the way (requirements, alternatives probed and
+   taken, children, the wake-up of restore_children_deps): mutual exclusion is preserved.  With
+   C13_exclusion_preserved_by_release this covers every primitive. *)
+Theorem C13_enable_preserves_exclusion : forall (T : tables) (ht : nat -> nat) n o f dry top err s r s',
+  excl_tables_check T = true -> heights_of ht s -> excl_inv T s ->
+  enable T n o f dry top err s = Some (r, s') -> excl_inv T s'.
+Proof. exact enable_preserves_exclusion. Qed.
+Print Assumptions C13_enable_preserves_exclusion.
+
+Theorem C13_restore_preserves_exclusion : forall (T : tables) (ht : nat -> nat) n o s s',
+  excl_tables_check T = true -> heights_of ht s -> excl_inv T s ->
+  restore_children_deps T n o s = Some s' -> excl_inv T s'.
+Proof. exact restore_preserves_exclusion. Qed.
+Print Assumptions C13_restore_preserves_exclusion.
+
+(* the table facts hold on the tables regenerated from the binary (both variants) *)
+Theorem GenDeps_exclusion_table_facts : excl_tables_check gen_tables = true /\ excl_tables_check gen_tables_lagged = true.
+Proof. split; vm_compute; reflexivity. Qed.
+Print Assumptions GenDeps_exclusion_table_facts.
+
+(* non-vacuity: on the real tables the enable of C13_no_switch_off_while_needed_refuted starts from a state without
+   conflicts, in a one-object graph *)
+Example C13_example_exclusion : heights_of (fun _ => 0) w3_s0 /\ excl_inv gen_tables w3_s0 /\
+  exists s, enable gen_tables 20 0 20 false true false w3_s0 = Some (true, s) /\ excl_inv gen_tables s.
+Proof.
+  assert (H : heights_of (fun _ => 0) w3_s0).
+  { intros p c Hc. destruct p as [|p]; [cbn in Hc; contradiction|]. destruct p; cbn in Hc; contradiction. }
+  assert (X : excl_inv gen_tables w3_s0) by (apply excl_check_sound; vm_compute; reflexivity).
+  split; [exact H|]. split; [exact X|].
+  destruct w3_witness as (s & _ & E & _). exists s. split; [exact E|].
+  apply (enable_preserves_exclusion gen_tables (fun _ => 0) 20 0 20 false true false w3_s0 true s (proj1 GenDeps_exclusion_table_facts) H X E).
+Qed.
+
+(* ---- consistency is NOT preserved by the enable family in general (restore_children_deps ignores a failed child
+   enable): counterexample on synthetic tables (EnableWitness.v); not reachable on the tables of the binary as far as
+   the search goes, hence monitored on every dump instead *)
+Theorem C13_enable_keeps_consistency_refuted : exists (T : tables) s s',
+  consistent T s /\ enable T 10 1 0 false true false s = Some (true, s') /\ ~ consistent T s'.
+Proof. exact enable_breaks_consistency_syn. Qed.
+Print Assumptions C13_enable_keeps_consistency_refuted.
+
+(* ---- components and atom groups: every live component belongs to a variable, every live atom group to a component,
+   for ALL sequences of operations from the empty state ... *)
+Theorem C13_rooted_for_all_sequences : forall (T : tables) n (ps : list mop) m m',
+  wf m -> acct m -> rooted m -> m_run T n ps m = Some m' -> wf m' /\ acct m' /\ rooted m'.
+Proof. exact m_run_rooted. Qed.
+Print Assumptions C13_rooted_for_all_sequences.
+
+Theorem C13_initial_state_rooted : forall k, rooted (m_empty k).
+Proof. exact empty_rooted. Qed.
+Print Assumptions C13_initial_state_rooted.
+
+(* ... hence reset destroys EVERYTHING (variables, biases, components, atom groups) and brings every atom reference count
+   back to zero (atoms held through fitting groups and atoms shared between groups included: i_atoms lists both) *)
+Theorem C13_reset_destroys_everything : forall (T : tables) n m m',
+  wf m -> rooted m -> m_reset T n m = Some m' ->
+  (forall o, alive_in (m_info m') o = false) /\
+  (acct m -> forall a, a < length (m_atoms m') -> nth a (m_atoms m') 0%Z = 0%Z).
+Proof. exact reset_destroys_everything. Qed.
+Print Assumptions C13_reset_destroys_everything.
+
+(* non-vacuity: the example state is reached from the empty state, hence rooted; reset empties it *)
+Example C13_example_reset : exists m m',
+  m_run gen_tables 40 (firstn 8 ex_ops) (m_empty 5) = Some m /\ wf m /\ rooted m /\ acct m /\
+  m_reset gen_tables 40 m = Some m' /\ map i_alive (m_info m') = repeat false 8 /\ m_atoms m' = repeat 0%Z 5.
+Proof.
+  destruct C13_example_consistent_computed as (m & _ & E & _).
+  destruct (C13_initial_state_consistent 5) as (W0 & A0).
+  destruct (m_run_rooted gen_tables 40 _ _ _ W0 A0 (empty_rooted 5) E) as (W & A & R).
+  destruct (m_reset gen_tables 40 m) as [m'|] eqn:E'.
+  2:{ vm_compute in E. inversion E; subst. vm_compute in E'. discriminate. }
+  exists m, m'. repeat (split; [assumption || reflexivity|]).
+  vm_compute in E. inversion E; subst. vm_compute in E'. inversion E'; subst. split; reflexivity.
 Qed.
